@@ -48,6 +48,13 @@ class Holder:
         return [sizes[d] for d in topology.dims] + [extra]
 
     # normalise_class_constants + normalise_attribute_loops
+    def nested_alias(self, flag):
+        if flag:
+            return 'early'
+        else:
+            first, second = self.alpha, self.beta
+            return [first, second, first]
+
     def optional_names(self):
         names = []
         for name in self._names:
@@ -288,7 +295,8 @@ def library_spellings(xs, ys):
     backwards = list(xs)[slice(None, None, -1)]
     outline = shapely.geometry.mapping(shapely.geometry.Point(1.0, 2.0))
     as_dataset = xarray.Dataset.from_dataframe(frame)
-    return (columns.tolist(), lifted.shape, turned.tolist(), int(flat), tuple(int(v) for v in back), series.to_numpy().tolist(), array.to_numpy().tolist(),
+    shares = not set(xs).isdisjoint(ys)
+    return (shares, columns.tolist(), lifted.shape, turned.tolist(), int(flat), tuple(int(v) for v in back), series.to_numpy().tolist(), array.to_numpy().tolist(),
             picked.values.tolist(), summed.values.tolist(), backwards, outline, sorted(as_dataset.data_vars), as_dataset['y'].values.tolist(),
             grid.tobytes(order='C') == grid.tobytes())
 
@@ -331,6 +339,18 @@ def method_alias_kept(holder, items):
     """The alias is handed on as a value: it stays."""
     lookup = holder.attrs.get
     return list(map(lookup, items))
+
+
+def _numbered(items):
+    kept = list(items)
+    return ((i, item) for i, item in enumerate(kept) if item is not None)
+
+
+def loop_over_returned_generator(items):
+    out = []
+    for i, item in _numbered(items):
+        out.append((i, item))
+    return out
 
 
 def library_keywords_kept(xs):
@@ -1383,6 +1403,7 @@ HOLDER_CA = Holder(alpha=HOLDER_C, beta=HOLDER_A)
 
 CASES = {
     'Holder.alias_of_self': [(HOLDER_A, 1), (HOLDER_B, 2)],
+    'Holder.nested_alias': [(HOLDER_A, True), (HOLDER_A, False), (HOLDER_C, False)],
     'Holder.optional_names': [(HOLDER_A,), (HOLDER_B,), (HOLDER_C,)],
     'Holder.optional_names_walrus': [(HOLDER_A,), (HOLDER_B,), (HOLDER_C,)],
     'Holder.class_choices': [(HOLDER_A,)],
@@ -1401,12 +1422,13 @@ CASES = {
     'try_lookup_continue': [(HOLDER_AB, {'b1'}), (HOLDER_AB, set()), (HOLDER_CA, {'b1', None})],
     'setdefault_statement': [({'a': 1, 'b': 2}, {'a': 0}), ({}, {}), ({'a': None}, {})],
     'get_test': [({'k': 1}, 'k'), ({}, 'k'), ({'k': 0}, 'k')],
-    'library_spellings': [([1, 2, 3], [4.5, 5, 6]), ([7], [8])],
+    'library_spellings': [([1, 2, 3], [4.5, 5, 6]), ([7], [8]), ([1, 2], [2, 3])],
     'annotated_locals': [(['ab', '', 'cde'],), ([],)],
     'metadata_temps': [(numpy.arange(24).reshape(2, 3, 4), ['a', 'b']), (numpy.arange(6).reshape(2, 3), [])],
     'metadata_temps_kept': [(['a'],), ([],)],
     'method_alias': [(HOLDER_A, ['bounds', 'units']), (HOLDER_C, ['bounds', 'start_index'])],
     'method_alias_kept': [(HOLDER_C, ['bounds', 'start_index'])],
+    'loop_over_returned_generator': [(['a', None, 'c'],), ([],), ([None],)],
     'library_keywords_kept': [([1, 2, 3, 4],)],
     'get_test_encoding': [({'k': 1}, 'k'), ({}, 'k'), ({'k': None}, 'k'), ({'k': 0}, 'k')],
     'conditional_element': [(True,), (False,)],
